@@ -534,7 +534,6 @@ pub fn run() -> i32 {
     }
     st.sample(json!({"primitives": ["HSalsa20", "HChaCha20", "increment_bytes"], "core_inputs": core_inputs.len(), "increment_cases": inc_cases.len()}));
     ctx.absorb("cores-increment", st);
-    drop(dump);
     corpus.into_inner().unwrap().flush().unwrap();
     ctx.note("second_reference_corpus", json!(corpus_path));
     ctx.require_outcome("blake2b==libsodium");
